@@ -79,4 +79,34 @@ def addRoute (g : Nat) : GNode → List Edge → Nat → Nat → GNode × List N
       let r := addRoute g (.mk g [] [] [] none) rest verb m
       (.mk gen segs (setL vars k r.1) methods all, gen :: r.2)
 
+def aliveG : GNode → Bool
+  | .mk _ segs vars methods all => all.isSome || !methods.isEmpty || !vars.isEmpty || !segs.isEmpty
+
+mutual
+  /-- `delRule(name)` on the working trie: the first verb binding of `name` the walk finds goes,
+  children that are no longer alive are unlinked; returns the tags of the nodes it WRITES (the
+  node whose method map loses the entry and every node on the way up, whose child map / slice
+  may lose a child). `none` = nothing found, nothing written. -/
+  def delRoute (name : Nat) : GNode → Option (GNode × List Nat)
+    | .mk gen segs vars methods all =>
+      match delRouteL name segs with
+      | some r => some (.mk gen r.1 vars methods all, gen :: r.2)
+      | none =>
+        match delRouteL name vars with
+        | some r => some (.mk gen segs r.1 methods all, gen :: r.2)
+        | none =>
+          if methods.any (fun p => p.2 == name) then
+            some (.mk gen segs vars (methods.eraseP fun p => p.2 == name) all, [gen])
+          else none
+  def delRouteL (name : Nat) : List (Nat × GNode) → Option (List (Nat × GNode) × List Nat)
+    | [] => none
+    | (k, c) :: rest =>
+      match delRoute name c with
+      | some r => some (if aliveG r.1 then (k, r.1) :: rest else rest, r.2)
+      | none =>
+        match delRouteL name rest with
+        | some r => some ((k, c) :: r.1, r.2)
+        | none => none
+end
+
 end Larking.CowTrie
